@@ -11,6 +11,7 @@ package main
 
 import (
 	"fmt"
+	"net"
 	"sort"
 	"go/token"
 	"go/types"
@@ -443,9 +444,43 @@ func (e *absEnv) strCall(name string, args []aval) (aval, bool) {
 			return renderAtoms(out)
 		}
 		return abool(lo(at(0)) == lo(at(1))), true
+	case "strings.Trim", "strings.TrimLeft", "strings.TrimRight":
+		if !isStr(0) {
+			return nil, false
+		}
+		cut, ok := lit(1)
+		if !ok {
+			return nil, false
+		}
+		a := append([]atom{}, at(0)...)
+		if n := len(a); n > 0 {
+			if a[0].sym == "" && name != "strings.TrimRight" {
+				a[0].lit = strings.TrimLeft(a[0].lit, cut)
+			}
+			if a[n-1].sym == "" && name != "strings.TrimLeft" {
+				a[n-1].lit = strings.TrimRight(a[n-1].lit, cut)
+			}
+		}
+		return mkStr(a), true
+	case "net.JoinHostPort":
+		if !isStr(0) || !isStr(1) {
+			return nil, false
+		}
+		if strings.Contains(renderAtoms(at(0)), ":") {
+			return concatStr(astr("["), args[0], astr("]:"), args[1]), true
+		}
+		return concatStr(args[0], astr(":"), args[1]), true
 	case "net.SplitHostPort":
 		if !isStr(0) {
 			return nil, false
+		}
+		if s0, ok := args[0].(astr); ok {
+			// a concrete address: the library's own answer
+			h, p, err := net.SplitHostPort(string(s0))
+			if err != nil {
+				return atuple{astr(""), astr(""), aptr{&aobj{name: "err:" + err.Error(), typ: types.Typ[types.Int], f: map[string]aval{}}, ""}}, true
+			}
+			return atuple{astr(h), astr(p), anil{}}, true
 		}
 		a := at(0)
 		// host:port with a literal ':' before a literal port; otherwise the "missing port" error
